@@ -1,12 +1,12 @@
 (* Line protocol: "<cmd> <sexp>" per input line -> one sexp per output line.
    sexp := hexint | '-' hexint | '(' sexp* ')'.   Integers are arbitrary-size, hexadecimal. *)
-open Model
+module M = Model
 
-let rec pos_of_bits (bits : bool list) : positive =
-  (* bits: most significant first, leading one already consumed as XH *)
-  List.fold_left (fun acc b -> if b then XI acc else XO acc) XH bits
+let rec pos_of_bits (bits : bool list) : M.positive =
+  (* bits: most significant first, leading one already consumed as M.XH *)
+  List.fold_left (fun acc b -> if b then M.XI acc else M.XO acc) M.XH bits
 
-let z_of_hex (neg : bool) (s : string) : z =
+let z_of_hex (neg : bool) (s : string) : M.z =
   let bits = ref [] in
   String.iter (fun c ->
     let d = match c with
@@ -17,14 +17,14 @@ let z_of_hex (neg : bool) (s : string) : z =
     bits := !bits @ [d land 8 <> 0; d land 4 <> 0; d land 2 <> 0; d land 1 <> 0]) s;
   let rec strip = function false :: t -> strip t | l -> l in
   match strip !bits with
-  | [] -> Z0
-  | _ :: rest -> let p = pos_of_bits rest in if neg then Zneg p else Zpos p
+  | [] -> M.Z0
+  | _ :: rest -> let p = pos_of_bits rest in if neg then M.Zneg p else M.Zpos p
 
-let hex_of_pos (p : positive) : string =
+let hex_of_pos (p : M.positive) : string =
   let rec bits p acc = match p with
-    | XH -> true :: acc
-    | XO q -> bits q (false :: acc)
-    | XI q -> bits q (true :: acc) in
+    | M.XH -> true :: acc
+    | M.XO q -> bits q (false :: acc)
+    | M.XI q -> bits q (true :: acc) in
   let bl = bits p [] in            (* msb first *)
   let n = List.length bl in
   let pad = (4 - n mod 4) mod 4 in
@@ -38,20 +38,20 @@ let hex_of_pos (p : positive) : string =
     | _ -> assert false in
   go bl; Buffer.contents buf
 
-let rec print_val buf (v : uval) = match v with
-  | VZ Z0 -> Buffer.add_char buf '0'
-  | VZ (Zpos p) -> Buffer.add_string buf (hex_of_pos p)
-  | VZ (Zneg p) -> Buffer.add_char buf '-'; Buffer.add_string buf (hex_of_pos p)
-  | VL l ->
+let rec print_val buf (v : M.uval) = match v with
+  | M.VZ M.Z0 -> Buffer.add_char buf '0'
+  | M.VZ (M.Zpos p) -> Buffer.add_string buf (hex_of_pos p)
+  | M.VZ (M.Zneg p) -> Buffer.add_char buf '-'; Buffer.add_string buf (hex_of_pos p)
+  | M.VL l ->
     Buffer.add_char buf '(';
     List.iteri (fun i x -> if i > 0 then Buffer.add_char buf ' '; print_val buf x) l;
     Buffer.add_char buf ')'
 
-let parse (s : string) (start : int) : uval =
+let parse (s : string) (start : int) : M.uval =
   let n = String.length s in
   let pos = ref start in
   let rec skip () = if !pos < n && (s.[!pos] = ' ' || s.[!pos] = '\t') then (incr pos; skip ()) in
-  let rec value () : uval =
+  let rec value () : M.uval =
     skip ();
     if !pos >= n then failwith "eof"
     else if s.[!pos] = '(' then begin
@@ -62,13 +62,13 @@ let parse (s : string) (start : int) : uval =
         if !pos >= n then failwith "unclosed"
         else if s.[!pos] = ')' then incr pos
         else (items := value () :: !items; loop ()) in
-      loop (); VL (List.rev !items)
+      loop (); M.VL (List.rev !items)
     end else begin
       let neg = s.[!pos] = '-' in
       if neg then incr pos;
       let st = !pos in
       while !pos < n && s.[!pos] <> ' ' && s.[!pos] <> ')' && s.[!pos] <> '(' do incr pos done;
-      VZ (z_of_hex neg (String.sub s st (!pos - st)))
+      M.VZ (z_of_hex neg (String.sub s st (!pos - st)))
     end in
   value ()
 
